@@ -144,7 +144,7 @@ func TestC20_SourceShape(t *testing.T) {
 				switch {
 				case i < 2:
 					fail("C20:source-shape:plain-install-failed", "root %s: installing from %s failed: %v", tag, src.Kind, err)
-				case !s.CandExec && followedByFile(s):
+				case !s.CandExec && followedByFile(s, s.Name):
 					fail("C20:source-shape:nonexec-candidate-refused", "the directory with the sole (non-executable) candidate followed by other files was refused: %v", err)
 				case !s.CandExec:
 					fail("C20:source-shape:nonexec-candidate-unfollowed-refused", "the directory with the sole (non-executable) candidate was refused: %v", err)
